@@ -27,11 +27,11 @@ def run(ctx):
     thorough = ctx.tier == "thorough"
     jobs = []
     for mode in ("native", "plain"):
-        m = 10 if thorough else 2
+        m = 40 if thorough else 2
         for part, nr in (("binary", 60 * m), ("unary", 40 * m), ("zero", 0), ("exp", 15 * m), ("batch", 4 * m), ("lists", 3 * m), ("algebra", 15 * m)):
             if mode == "plain" and part in ("lists",):
                 nr = 0
-            for i in range((6 if thorough else 3) if part in ("binary", "algebra", "exp", "unary") else 1):
+            for i in range((12 if thorough else 3) if part in ("binary", "algebra", "exp", "unary") else 1):
                 jobs.append({"part": part, "mode": mode, "nrandom": nr, "shard": i})
     # programs of extension-field operations compiled with gnark's real builders (R1CS, SCS): registers used again after they were
     # operands, a register given as compile-time constant
